@@ -85,6 +85,10 @@ func H_C16_clients() {
 	tmtypes.SetIterationKey(store, h)
 	relayer := vp.String("relayer", 3, 3, "xyz")
 	a.k.ClientKeeper.RegisterRelayers(a.ctx, cn, []string{relayer})
+	// relayers may be registered for a chain before its client exists
+	future := name("future.chain")
+	vp.Assume(future != cn)
+	a.k.ClientKeeper.RegisterRelayers(a.ctx, future, []string{relayer})
 
 	b := roundTrip(cdc, a)
 
@@ -107,6 +111,7 @@ func H_C16_clients() {
 	vp.Assert(okPT && gpt == pt, "C16.4 the processed-time metadata of every trusted state survives (confirmation delays)")
 	vp.Assert(len(tmtypes.GetIterationKey(storeB, h)) > 0, "C16.5 the ordered index of trusted states survives (pruning / ordered lookup)")
 	vp.Assert(b.k.ClientKeeper.AuthRelayer(b.ctx, cn, relayer), "C16.6 the relayer registry survives")
+	vp.Assert(b.k.ClientKeeper.AuthRelayer(b.ctx, future, relayer), "C16.6 relayers registered for a chain whose client does not exist yet survive too")
 }
 
 // H_C16_packets: commitments, acknowledgements, receipts, send counters, clean points, ack
